@@ -12,6 +12,7 @@ import Bolt.Driver.Compact
 import Bolt.Driver.Flock
 import Bolt.Driver.Node
 import Bolt.Driver.BTree
+import Bolt.Driver.Bkt
 open Bolt.Driver
 
 def main (args : List String) : IO UInt32 := do
@@ -27,6 +28,7 @@ def main (args : List String) : IO UInt32 := do
   | ["flock"] => cmdFlock; return 0
   | ["node"] => cmdNode; return 0
   | ["btree"] => cmdBTree; return 0
+  | ["bkt"] => cmdBkt; return 0
   | ["compactmodel", path, os, limit] => cmdCompactModel path (parseNat os) (parseNat limit); return 0
   | ["reencode", path, os] => cmdReencode path (parseNat os); return 0
   | ["checkmodel", path, os, kind] => cmdCheckModel path (parseNat os) kind; return 0
